@@ -719,6 +719,8 @@ TRANSPARENT_CALLS = {'float': 'numeric identity on numbers',
 
 
 _ALIAS = ('aliasof',)
+_EPOCH = ('epoch',)
+_PENDING = (('pending-epoch',), '')
 
 
 class State(object):
@@ -1247,6 +1249,14 @@ class Evaluator(object):
                     return ('const', text.replace('%%', '%'))
                 return fmt_key(('const', text), fargs[0] if len(fargs) == 1
                                else ('tuple', tuple(fargs)))
+        root = self._receiver_root(fk)
+        if root is not None and getattr(self, 'ctx', None) is not None:
+            ep = st.heap.get((_EPOCH, root), 0)
+            if ep:
+                # the receiver has been through `ep` statements that call
+                # one of its state-changing methods: this is not the value
+                # the same call had before them
+                kws = (('@', ('num', Fraction(ep))),) + tuple(kws)
         res = ('call', fk, tuple(args), kws)
         self._note_call(st, res, n)
         # a call on self (or passing self) may change self's attributes
@@ -1255,6 +1265,16 @@ class Evaluator(object):
             for hk in [h for h in st.heap if h[0] == ('name', 'self')]:
                 del st.heap[hk]
         return res
+
+    @staticmethod
+    def _receiver_root(fk):
+        """'self' for self.m / self.a.m; the name for name.m."""
+        if fk[0] != 'attr':
+            return None
+        b = fk[1]
+        while b[0] == 'attr':
+            b = b[1]
+        return b[1] if b[0] == 'name' else None
 
     def _note_call(self, st, res, node):
         if self.record_calls:
@@ -1785,6 +1805,9 @@ class Summarizer(Evaluator):
         return out
 
     def block(self, stmts, st):
+        late = st.heap.pop(_PENDING, None)
+        if late:
+            self._bump(st, late)
         live = [(st, None)]
         if len(stmts) > 1:
             stmts = self._peephole(self._pop_idiom(stmts))
@@ -1847,7 +1870,146 @@ class Summarizer(Evaluator):
                     r = self._inline(n, hit, st)
                     if r is not None:
                         return r
-        return m(n, st)
+        roots = self._impure_roots(hdr) if hdr else ()
+        if isinstance(n, (ast.For, ast.While)):
+            roots = self._impure_roots([n])
+        elif roots and isinstance(n, (ast.If, ast.With)):
+            # the test runs before the branches: they start one step later
+            st.heap[_PENDING] = roots
+            res = m(n, st)
+            for s2, o2 in res:
+                late = s2.heap.pop(_PENDING, None)
+                if late:
+                    self._bump(s2, late)
+            return res
+        res = m(n, st)
+        if roots:
+            for s2, o2 in res:
+                self._bump(s2, roots)
+        return res
+
+    @staticmethod
+    def _bump(st, roots):
+        for r in roots:
+            st.heap[(_EPOCH, r)] = st.heap.get((_EPOCH, r), 0) + 1
+
+    def _impure_names(self):
+        """(per-class map name -> impure?, module-wide set of method names
+        every definition of which changes its receiver)."""
+        rel, mod, cls = self.ctx
+        ck = (id(mod), 'impure')
+        if ck in self._tables:
+            return self._tables[ck]
+        from .match import MUTATING_METHODS
+        classes = [c for c in mod.body if isinstance(c, ast.ClassDef)]
+        byname = dict((c.name, c) for c in classes)
+
+        def chain(c):
+            seen, out = set(), []
+            while c is not None and c.name not in seen:
+                seen.add(c.name)
+                out.append(c)
+                nxt = None
+                for b in c.bases:
+                    if isinstance(b, ast.Name) and b.id in byname:
+                        nxt = byname[b.id]
+                        break
+                c = nxt
+            return out
+
+        def rooted_at_self(t):
+            while isinstance(t, (ast.Attribute, ast.Subscript)):
+                t = t.value
+            return isinstance(t, ast.Name) and t.id == 'self'
+
+        def direct(f):
+            for x in ast.walk(f):
+                if isinstance(x, (ast.Attribute, ast.Subscript)) \
+                        and isinstance(x.ctx, (ast.Store, ast.Del)) \
+                        and rooted_at_self(x):
+                    return True
+                if isinstance(x, ast.Call) and isinstance(
+                        x.func, ast.Attribute) \
+                        and x.func.attr in MUTATING_METHODS \
+                        and isinstance(x.func.value, (ast.Attribute,
+                                                      ast.Subscript)) \
+                        and rooted_at_self(x.func.value):
+                    return True
+                if isinstance(x, ast.Call) and isinstance(
+                        x.func, ast.Name) and x.func.id == 'setattr' \
+                        and x.args and isinstance(x.args[0], ast.Name) \
+                        and x.args[0].id == 'self':
+                    return True
+            return False
+        percls = {}
+        for c in classes:
+            meths = {}
+            for cc in reversed(chain(c)):
+                for f in cc.body:
+                    if isinstance(f, ast.FunctionDef):
+                        meths[f.name] = f
+            imp = dict((nm, direct(f)) for nm, f in meths.items())
+            changed = True
+            while changed:
+                changed = False
+                for nm, f in meths.items():
+                    if imp[nm]:
+                        continue
+                    for x in ast.walk(f):
+                        if isinstance(x, ast.Call) and isinstance(
+                                x.func, ast.Attribute) and isinstance(
+                                x.func.value, ast.Name) \
+                                and x.func.value.id == 'self' \
+                                and imp.get(x.func.attr):
+                            imp[nm] = True
+                            changed = True
+                            break
+            percls[c.name] = imp
+        defs = {}
+        for imp in percls.values():
+            for nm, v in imp.items():
+                defs.setdefault(nm, []).append(v)
+        everywhere = set(nm for nm, vs in defs.items() if all(vs)
+                         and not nm.startswith('__'))
+        res = (percls, everywhere)
+        self._tables[ck] = res
+        return res
+
+    def _impure_roots(self, exprs):
+        """Receivers (`self`, or a plain name) on which the expressions
+        call a method that changes its receiver's state."""
+        if self.ctx is None:
+            return ()
+        rel, mod, cls = self.ctx
+        percls, everywhere = self._impure_names()
+        mine = percls.get(cls.name, {}) if cls is not None else {}
+        roots = set()
+        seen = set()
+        work = list(exprs)
+        while work:
+            e = work.pop()
+            for x in ast.walk(e):
+                if not (isinstance(x, ast.Call) and isinstance(
+                        x.func, ast.Attribute) and isinstance(
+                        x.func.value, ast.Name)):
+                    continue
+                if self.inline:
+                    hit = self._resolve(x)
+                    if hit is not None:
+                        # a helper without a reviewed counterpart is read
+                        # as part of this function: what matters is what
+                        # its own statements call
+                        if id(hit[0]) not in seen:
+                            seen.add(id(hit[0]))
+                            work.extend(hit[0].body)
+                        continue
+                r, mname = x.func.value.id, x.func.attr
+                if r == 'self' and cls is not None:
+                    if mine.get(mname):
+                        roots.add(r)
+                elif r != 'self' and mname in everywhere:
+                    roots.add(r)
+        return tuple(sorted(roots))
 
     _BOOL_CALLS = ('isinstance', 'hasattr', 'callable', 'any', 'all', 'bool',
                    'issubclass', 'startswith', 'endswith', 'isdigit',
